@@ -55,7 +55,16 @@ var comments = []string{"-- c\n", "--\n", "-- $T.a\n", "-- 'q\n", "/* c */", "/*
 var numbers = []string{"1", "42", "3.14", "-1", "0x1F", "1e5", "NULL", "TRUE"}
 var funcs = []string{"count(*)", "max(a)", "f(a, b)", "coalesce(a, 'x')", "f(g(1), ')')", "f('--', \"(\")", "now()", "f(/* ) */ 1)", "f(-- )\n 2)", "substr(name, 1, 2)", "f($T.a)", "f((1),(2))"}
 
-func (g *G) blank() string { return g.R.Pick(blanks) }
+func (g *G) blank() string {
+	if g.R.Chance(1, 14) {
+		// a comment where a blank may stand, also inside expressions
+		if g.R.Chance(1, 2) {
+			return g.R.Pick(blanks) + g.R.Pick(comments) + g.R.Pick(blanks)
+		}
+		return g.R.Pick(blanks) + g.RandComment() + g.R.Pick(blanks)
+	}
+	return g.R.Pick(blanks)
+}
 func (g *G) optBlank() string {
 	if g.R.Chance(1, 3) {
 		return g.blank()
